@@ -565,3 +565,47 @@ Proof.
   split; [flags; reflexivity|]. split; [flags; reflexivity|]. split; [flags; reflexivity|]. split; [flags; reflexivity|].
   split; [|reflexivity]. intros i Hi N. unfold set_v, set_c, set_z, set_n. rewrite !R_setf_other by lia. reflexivity.
 Qed.
+
+(* ---- divide and remainder, register destination: quotient / remainder of the operands at the operand size, N and Z
+   from it, C = 0; a zero divisor faults and changes nothing (C02_div_by_zero_faults) ---- *)
+Lemma div_arm_final ir dst oa ob m a b q r :
+  read_op ir 0 m = Ok a m -> read_op ir 1 m = Ok b m -> a <> 0 ->
+  div_val a b (otype (get_op ir 1)) = Some q ->
+  omode (get_op ir dst) = MRegister -> oreg (get_op ir dst) = Some r -> 0 <= r <= 10 ->
+  otype (get_op ir dst) <> DNone ->
+  let t := otype (get_op ir dst) in
+  exists m', div_arm ir dst oa ob m = Ok (ilen ir) m'
+    /\ R m' r = q /\ flag F_N m' = Z.testbit q (sign_bit t) /\ flag F_Z m' = (trunc_to t q =? 0) /\ flag F_C m' = false
+    /\ (forall i, 0 <= i <= 15 -> i <> r -> i <> 11 -> R m' i = R m i) /\ mbus m' = mbus m.
+Proof.
+  intros R0 R1 Na Hq Hm Hr Hr10 Ht t. unfold div_arm. rewrite R0. cbn [bind]. rewrite R1. cbn [bind].
+  replace (a =? 0) with false by lia. rewrite Hq. rewrite (write_reg ir dst r q m Hm Hr). cbn [bind].
+  eexists. split; [reflexivity|]. rewrite set_nz_flags_sized by exact Ht. fold t.
+  destruct ((a =? oa) && (b =? ob)).
+  - split; [unfold set_c, set_z, set_n, set_v; rewrite !R_setf_other by lia; apply R_setR_same|].
+    split; [flags; reflexivity|]. split; [flags; reflexivity|]. split; [flags; reflexivity|].
+    split; [|reflexivity]. intros i Hi N1 N2. unfold set_c, set_z, set_n, set_v. rewrite !R_setf_other by lia.
+    apply R_setR_other; lia.
+  - split; [unfold set_c, set_z, set_n; rewrite !R_setf_other by lia; apply R_setR_same|].
+    split; [flags; reflexivity|]. split; [flags; reflexivity|]. split; [flags; reflexivity|].
+    split; [|reflexivity]. intros i Hi N1 N2. unfold set_c, set_z, set_n. rewrite !R_setf_other by lia.
+    apply R_setR_other; lia.
+Qed.
+
+Lemma mod_arm_final ir dst m a b q r :
+  read_op ir 0 m = Ok a m -> read_op ir 1 m = Ok b m -> a <> 0 ->
+  mod_val a b (otype (get_op ir 1)) = Some q ->
+  omode (get_op ir dst) = MRegister -> oreg (get_op ir dst) = Some r -> 0 <= r <= 10 ->
+  otype (get_op ir dst) <> DNone ->
+  let t := otype (get_op ir dst) in
+  exists m', mod_arm ir dst m = Ok (ilen ir) m'
+    /\ word_outcome m m' r q (Z.testbit q (sign_bit t)) (trunc_to t q =? 0) (too_big t q) false.
+Proof.
+  intros R0 R1 Na Hq Hm Hr Hr10 Ht t. unfold mod_arm. rewrite R0. cbn [bind]. rewrite R1. cbn [bind].
+  replace (a =? 0) with false by lia. rewrite Hq. rewrite (write_reg ir dst r q m Hm Hr). cbn [bind]. cbv zeta.
+  eexists. split; [reflexivity|]. rewrite set_nz_flags_sized, set_v_flag_op_sized by exact Ht. fold t.
+  destruct (nzvc_after (Z.testbit q (sign_bit t)) (trunc_to t q =? 0) (too_big t q) false (setR m r q)) as [A [B [C D]]].
+  constructor; auto.
+  - rewrite R_flags_other by lia. apply R_setR_same.
+  - intros i Hi N1 N2. rewrite R_flags_other by lia. apply R_setR_other; lia.
+Qed.
